@@ -109,7 +109,11 @@ func c13TimedOnce(cs string, try int) string {
 		pclose = atoi(v)
 	}
 	if slow > 0 {
-		c13t.up.setSlow(base+1, slow)
+		slowID := 1
+		if v, ok := m["slowid"]; ok {
+			slowID = atoi(v)
+		}
+		c13t.up.setSlow(base+slowID, slow)
 	}
 	port, ok := c13t.ports[proto+"idle"]
 	if !ok || len(gaps) != len(segs) {
@@ -212,6 +216,9 @@ func c13TimedOnce(cs string, try int) string {
 		}
 	}
 	_ = frameEnd
+	if _, ok := m["lost"]; ok {
+		complete-- // the answer of that query goes down with the connection the listener closes
+	}
 	stall := false
 	if judged && lost {
 		stall = true
@@ -361,6 +368,11 @@ func c13TimedScripts(r *rand.Rand, thorough bool) []c13timed {
 	// the upstream answers after 1.3 x idle: the client is WAITING, not idle; it is answered, the connection stays
 	// open and takes another query
 	out = append(out, c13timed{cat: "timed-slow-answer", fs: F(30, 28), segs: []int{32, 30}, gapStr: "100,w200", extra: "slow=1300"})
+	// tcp/tls only (the gnet timer re-arms while anything is in flight): query 2 is still at the slow upstream, query 3
+	// is half sent, then silence for 1.6 x idle: the deadline passes with n > 0, the connection is closed although
+	// a query is in flight (its answer is lost with the connection); "lost=2" tells the model driver
+	out = append(out, c13timed{cat: "timed-partial-while-busy", fs: F(30, 28, 26), segs: []int{32, 30, 5, 23},
+		gapStr: "100,100,100,1600", extra: "pclose=3 slow=1500 slowid=2 lost=2 notgnet=1"})
 	// nothing in flight, a frame half sent, then silence for 1.6 x idle: the listener closes (n > 0 / timer)
 	out = append(out, c13timed{cat: "timed-partial-then-silence", fs: F(30, 28), segs: []int{32, 7, 23}, gapStr: "100,200,1600", extra: "pclose=2"})
 	return out
@@ -372,6 +384,9 @@ func c13TimedGen(r *rand.Rand, thorough bool, emit func(c, cat string)) {
 	base := 1000
 	for _, proto := range []string{"tcp", "tls", "gnet"} {
 		for _, sc := range scripts {
+			if proto == "gnet" && strings.Contains(sc.extra, "notgnet=1") {
+				continue
+			}
 			ss := make([]string, len(sc.segs))
 			gs := make([]string, len(sc.gaps))
 			for i := range sc.segs {
